@@ -139,6 +139,7 @@ package server
 //@ requires csWF(s) && p != nil
 //@ ensures[unknown] !(id in dom(s.cs)) ==> result0 != nil
 //@ ensures[set] id in dom(s.cs) ==> result0 == nil && s.cs[id].params == p
+//@ ensures[reject-no-effect] result0 != nil ==> s.cs[id].params == old(s.cs[id].params)
 //@ ensures[wf] csWF(s)
 //@ assigns s.cs[id].params
 //@ props C09 C11:lock
